@@ -29,6 +29,7 @@ import (
 	"encoding/hex"
 	"fmt"
 	"math"
+	"math/big"
 	"os"
 	"sort"
 	"strconv"
@@ -832,6 +833,7 @@ func main() {
 		h.genCheck()
 		h.genParse()
 		h.genRange()
+		h.genDigits()
 		h.genSearch()
 		h.genSealed()
 		h.genSealedSeq()
@@ -1150,6 +1152,102 @@ func (h *H) genRange() {
 			v = &s
 		}
 		h.opRange(&rng{from: gen(), to: gen(), incFrom: h.rnd.Bool(), incTo: h.rnd.Bool()}, []byte(*v))
+	}
+}
+
+// digitPool: plain decimal strings of 1..40 (and 310) digits around the places where fixed-width integer parsing
+// goes wrong: 2^63, 2^64, 2^64+k, 10^19, 10^20, 10^38, with and without leading zeros.
+func digitPool() []string {
+	p := func(base string, exp int64, add int64) string {
+		b, _ := new(big.Int).SetString(base, 10)
+		v := new(big.Int).Exp(b, big.NewInt(exp), nil)
+		return v.Add(v, big.NewInt(add)).String()
+	}
+	res := []string{"0", "5", "42", "007", "9007199254740993",
+		p("2", 63, -1), p("2", 63, 0), p("2", 63, 1), p("2", 64, -1), p("2", 64, 0), p("2", 64, 1), p("2", 64, 5), p("2", 64, 42),
+		p("2", 65, 7), p("10", 18, 0), p("10", 19, 0), p("10", 19, 1), p("10", 20, 0), p("10", 20, 5), p("10", 21, 0), p("10", 38, 0), p("10", 38, 3),
+		p("2", 128, 0), p("2", 128, 9), p("10", 39, 7), "00" + p("2", 64, 5), "0000000000" + p("10", 20, 42), strings.Repeat("9", 40),
+		"000000000000000000000000000000000000005", strings.Repeat("9", 310)}
+	return res
+}
+
+func bigOf(s string) (*big.Int, bool) {
+	if s == "" {
+		return nil, false
+	}
+	for i := 0; i < len(s); i++ {
+		if s[i] < '0' || s[i] > '9' {
+			return nil, false
+		}
+	}
+	v, ok := new(big.Int).SetString(s, 10)
+	return v, ok
+}
+
+// genDigits: numeric ranges whose ends and tokens are plain decimal strings of any length.  Besides the usual
+// channel/oracle (opRange), the property of c13_digits_range_closed/open is checked on the real code with math/big,
+// the Lean digitsNat is tied to math/big (dval), and the oracle hypothesis DigitsMono is checked on the pool.
+func (h *H) genDigits() {
+	pool := digitPool()
+	type dv struct {
+		s string
+		v *big.Int
+	}
+	var ds []dv
+	for _, s := range pool {
+		v, _ := bigOf(s)
+		ds = append(ds, dv{s, v})
+		h.chRange.Add("dval "+hx([]byte(s)), "ok "+v.String(), len(s) >= 19, "dval")
+	}
+	for _, s := range []string{"", "1a", "-1", "1.0", " 1"} {
+		h.chRange.Add("dval "+hx([]byte(s)), "ok none", false, "dval")
+	}
+	// DigitsMono on the pool: a <= b  =>  key(ParseFloat a) <= key(ParseFloat b)
+	for _, a := range ds {
+		for _, b := range ds {
+			fa, oka := parseNum(a.s)
+			fb, okb := parseNum(b.s)
+			if oka && okb && a.v.Cmp(b.v) <= 0 && fkey(fa) > fkey(fb) {
+				h.chRange.Error = fmt.Sprintf("strconv.ParseFloat is not monotone on %s <= %s (hypothesis DigitsMono)", a.s, b.s)
+			}
+		}
+	}
+	n := 0
+	for _, lo := range ds {
+		for _, hi := range ds {
+			if lo.v.Cmp(hi.v) > 0 {
+				continue
+			}
+			for _, v := range ds {
+				n++
+				if !h.o.Thorough() && n%3 != 0 {
+					continue
+				}
+				for inc := 0; inc < 4; inc += 3 { // closed and open
+					r := &rng{from: &lo.s, to: &hi.s, incFrom: inc != 0, incTo: inc != 0}
+					h.opRange(r, []byte(v.s))
+					_, okl := parseNum(lo.s)
+					_, okh := parseNum(hi.s)
+					_, okv := parseNum(v.s)
+					if !(okl && okh && okv) {
+						continue
+					}
+					var got bool
+					res := guard(func() string {
+						_, got = pattern.VerifRangeCheck(tok{r: r}.parserToken().(*parser.Range), []byte(v.s))
+						return "ok"
+					})
+					inside := lo.v.Cmp(v.v) <= 0 && v.v.Cmp(hi.v) <= 0
+					strict := lo.v.Cmp(v.v) < 0 && v.v.Cmp(hi.v) < 0
+					req := fmt.Sprintf("rcheck %s %s %s", tok{r: r}, hx([]byte(v.s)), numTable([]byte(lo.s), []byte(hi.s), []byte(v.s)))
+					h.orRange.Case("digits "+req, len(v.s) >= 19, "digits", fmt.Sprintf("digits-len>=%d", min(len(v.s)/10*10, 40)))
+					if res == "panic" || (inc != 0 && inside && !got) || (inc == 0 && got && !strict) {
+						h.violate("pattern/pattern.go:rangeSearch.check", "digits-range-ignores-unbounded-value",
+							fmt.Sprintf("range %s on the decimal token %s (%d digits): check answers %v (%s); by value the token is inside the closed interval: %v, strictly inside: %v", tok{r: r}, v.s, len(v.s), got, res, inside, strict), req)
+					}
+				}
+			}
+		}
 	}
 }
 
